@@ -25,6 +25,7 @@ const (
 	FailCommit       // callback runs, then the transaction is failed so that bbolt rolls back
 	FailClass        // k-th failable operation of one class (bucket|kind|key class) returns ErrInjected
 	KillOp           // SIGKILL at the k-th operation (any kind)
+	PanicOp          // the k-th operation (any kind) panics inside the storage layer
 	KillBeforeCommit // SIGKILL after the callback, before bbolt commits
 	KillAfterCommit  // SIGKILL right after the storage commit returned
 )
@@ -212,6 +213,11 @@ func (p *Proxy) step(bucket, kind string, key []byte, failable bool) error {
 		if n == k {
 			syscall.Kill(syscall.Getpid(), syscall.SIGKILL)
 			select {}
+		}
+	case PanicOp:
+		if n == k {
+			p.Fired.Store(true)
+			panic("injected storage panic")
 		}
 	case FailOp:
 		if failable && fn == k {
